@@ -622,7 +622,7 @@ func ParentMain(id, tier string, seed int64) int {
 		evDir = d // mutant runs must not overwrite genuine evidence
 	}
 	os.MkdirAll(evDir, 0o755)
-	if !harness {
+	if !harness || nviol > 0 {
 		os.WriteFile(filepath.Join(evDir, id+".json"), b, 0o644)
 	}
 	var secStr []string
@@ -631,11 +631,15 @@ func ParentMain(id, tier string, seed int64) int {
 	}
 	fmt.Printf("%s tier=%s evaluations=%d distinct=%d states=%d transitions=%d exhaustive=%v violations=%d known=%d wall=%.1fs [%s]\n",
 		id, tier, merged.Evals, len(distinct), merged.States, merged.Trans, exhaustive, nviol, nknown, time.Since(start).Seconds(), strings.Join(secStr, " "))
-	if harness {
-		return 2
-	}
+	// a violation that was exhibited (replay file written, re-checked) is reported as such even when some other part
+	// of the run ended in a harness error - typically a self-check of the harness that fails BECAUSE the library is
+	// broken (e.g. "the genuine export must import" when the importer rejects genuine exports). Without a violation a
+	// harness error is a broken run (exit 2), never a verdict.
 	if nviol > 0 {
 		return 1
+	}
+	if harness {
+		return 2
 	}
 	return 0
 }
